@@ -728,12 +728,16 @@ def kantorovich(x, y, cost=_dummy_cost, max_iter=100000):
     b /= b_sum
 
     sub_cost = cost[row_mask, :][:, col_mask]
+    # The solver's artificial cost and pivot tolerance are absolute, so hand it
+    # costs of magnitude one (a power of two keeps the division exact).
+    cost_scale = sub_cost.max() if sub_cost.size > 0 else 0.0
+    cost_scale = 2.0 ** np.floor(np.log2(cost_scale)) if cost_scale > 0 else 1.0
 
     node_arc_data, spanning_tree, graph = allocate_graph_structures(
         a.shape[0], b.shape[0], False
     )
     initialize_supply(a, -b, graph, node_arc_data.supply)
-    initialize_cost(sub_cost, graph, node_arc_data.cost)
+    initialize_cost(sub_cost / cost_scale, graph, node_arc_data.cost)
     # initialize_cost(cost, graph, node_arc_data.cost)
     init_status = initialize_graph_structures(graph, node_arc_data, spanning_tree)
     if init_status == False:
@@ -751,7 +755,7 @@ def kantorovich(x, y, cost=_dummy_cost, max_iter=100000):
         raise ValueError(
             "Optimal transport problem was UNBOUNDED. Please check inputs."
         )
-    result = total_cost(node_arc_data.flow, node_arc_data.cost)
+    result = total_cost(node_arc_data.flow, node_arc_data.cost) * cost_scale
 
     return result
 
